@@ -575,28 +575,6 @@ fn cmd_replay(a: &Args) -> i32 {
 
 fn cmd_selftest() -> i32 {
     let mut bad = refmodel::perft_selftest();
-    // Outcome::passes over its whole (finite) domain against the classes of C14
-    use owlchess::{Color, Outcome};
-    for f in lib_api::FILTERS {
-        for r in lib_api::DRAW_REASONS {
-            let o = Outcome::Draw(r);
-            if let Some(w) = world::class_passes(&o, f) {
-                if o.passes(f) != w {
-                    bad.push(format!("Outcome::passes({:?}, {:?}) = {}, classes say {}", o, f, o.passes(f), w));
-                }
-            }
-        }
-        for side in [Color::White, Color::Black] {
-            for r in lib_api::WIN_REASONS {
-                let o = Outcome::Win { side, reason: r };
-                if let Some(w) = world::class_passes(&o, f) {
-                    if o.passes(f) != w {
-                        bad.push(format!("Outcome::passes({:?}, {:?}) = {}, classes say {}", o, f, o.passes(f), w));
-                    }
-                }
-            }
-        }
-    }
     // encode/decode round trip of generated operations
     let mut n = 0;
     for i in 0..200u64 {
@@ -614,7 +592,7 @@ fn cmd_selftest() -> i32 {
         }
     }
     if bad.is_empty() {
-        println!("selftest ok (model perft, Outcome::passes domain, {} operations round-tripped)", n);
+        println!("selftest ok (model perft, {} operations round-tripped through the replay encoding)", n);
         0
     } else {
         for b in bad.iter().take(20) {
